@@ -92,6 +92,13 @@ func Start(o Opts) (*Proc, error) {
 	return nil, lastErr
 }
 
+func apiAddress(scheme, dir string, port int) string {
+	if scheme == "unix" || scheme == "unixs" {
+		return fmt.Sprintf("--api.address=%s://%s", scheme, filepath.Join(dir, "api.sock"))
+	}
+	return fmt.Sprintf("--api.address=%s://127.0.0.1:%d", scheme, port)
+}
+
 func start(bin string, o Opts) (*Proc, error) {
 	dir, err := os.MkdirTemp(Scratch(), "regatta-"+o.Role+"-")
 	if err != nil {
@@ -108,7 +115,7 @@ func start(bin string, o Opts) (*Proc, error) {
 	}
 	args := []string{o.Role,
 		"--log-level=" + lvl,
-		fmt.Sprintf("--api.address=%s://127.0.0.1:%d", scheme, api),
+		apiAddress(scheme, dir, api),
 		fmt.Sprintf("--rest.address=http://127.0.0.1:%d", rest),
 		fmt.Sprintf("--raft.address=127.0.0.1:%d", raft),
 		fmt.Sprintf("--raft.initial-members=1=127.0.0.1:%d", raft),
@@ -131,7 +138,11 @@ func start(bin string, o Opts) (*Proc, error) {
 		if rs == "" {
 			rs = "http"
 		}
-		args = append(args, fmt.Sprintf("--replication.address=%s://127.0.0.1:%d", rs, repl))
+		if rs == "unix" || rs == "unixs" {
+			args = append(args, fmt.Sprintf("--replication.address=%s://%s", rs, filepath.Join(dir, "repl.sock")))
+		} else {
+			args = append(args, fmt.Sprintf("--replication.address=%s://127.0.0.1:%d", rs, repl))
+		}
 	} else {
 		args = append(args, "--replication.leader-address=http://"+o.LeaderRepl,
 			"--replication.poll-interval=20ms", "--replication.lease-interval=50ms", "--replication.reconcile-interval=100ms")
@@ -157,8 +168,14 @@ func start(bin string, o Opts) (*Proc, error) {
 	// that is locked to its OS thread and stays parked in Wait on that very thread until the child has been reaped.
 	cmd.SysProcAttr = &syscall.SysProcAttr{Pdeathsig: syscall.SIGKILL}
 	p := &Proc{Role: o.Role, Cmd: cmd, Dir: dir, API: fmt.Sprintf("127.0.0.1:%d", api), LogPath: logPath, exited: make(chan struct{})}
+	if scheme == "unix" || scheme == "unixs" {
+		p.API = "unix://" + filepath.Join(dir, "api.sock") // a complete gRPC target
+	}
 	if o.Role == "leader" {
 		p.Repl = fmt.Sprintf("127.0.0.1:%d", repl)
+		if o.ReplScheme == "unix" || o.ReplScheme == "unixs" {
+			p.Repl = "unix://" + filepath.Join(dir, "repl.sock")
+		}
 	}
 	started := make(chan error, 1)
 	go func() {
